@@ -20,6 +20,16 @@ func propC13(run *Run, n int) {
 	for i := 0; i < n/2; i++ {
 		t := cfg.Doc(r, 0)
 		dw := hostileDiff(r, cfg)
+		if r.Chance(1, 2) {
+			// target-aware: hunks that match the target for a while and then run past its ends
+			t = cfg.Arr(r, 0)
+			if r.Chance(1, 3) {
+				t = VObj("k", t)
+			}
+			if w, ok := nearMissDiff(r, cfg, t); ok {
+				dw = w
+			}
+		}
 		addC13Patch(run, t, dw)
 	}
 	for i := 0; i < n/2; i++ {
@@ -58,6 +68,60 @@ func hostileDiff(r *Rng, cfg GenCfg) string {
 		hs = append(hs, strings.Join(strings.Fields(w), " "))
 	}
 	return joinHunks(hs)
+}
+
+// nearMissDiff builds a strict list hunk on an array of the target whose before-context and leading
+// removals are the target's own elements, and whose removals / after-context / index then run past the
+// end of the array (or start before its beginning).
+func nearMissDiff(r *Rng, cfg GenCfg, t *Val) (string, bool) {
+	path := ""
+	arr := t
+	if t.K == KObj {
+		path = "K\"6b "
+		arr = t.O["k"]
+	}
+	if arr == nil || arr.K != KArr {
+		return "", false
+	}
+	n := len(arr.A)
+	i := r.Intn(n + 2)
+	if r.Chance(1, 8) {
+		i = n + 1 + r.Intn(3)
+	}
+	before := "V"
+	if i > 0 && i-1 < n {
+		before = arr.A[i-1].Wire()
+	}
+	if r.Chance(1, 5) {
+		before = ""
+	}
+	rem := []string{}
+	for j := i; j < n; j++ {
+		rem = append(rem, arr.A[j].Wire())
+		if r.Chance(1, 4) {
+			break
+		}
+	}
+	extra := r.Intn(3)
+	if r.Chance(1, 2) {
+		extra = 0
+	}
+	for k := 0; k < extra; k++ {
+		rem = append(rem, cfg.scalar(r).Wire())
+	}
+	after := "V"
+	if k := i + len(rem) - extra; k < n && extra == 0 && r.Chance(2, 3) {
+		after = arr.A[k].Wire()
+	}
+	if r.Chance(1, 6) {
+		after = after + " " + cfg.scalar(r).Wire()
+	}
+	add := ""
+	if r.Chance(1, 2) {
+		add = cfg.scalar(r).Wire()
+	}
+	w := fmt.Sprintf("( s %sI%d | %s | %s | %s | %s )", path, i, before, strings.Join(rem, " "), add, after)
+	return joinHunks([]string{strings.Join(strings.Fields(w), " ")}), true
 }
 
 func addC13Patch(run *Run, t *Val, dw string) {
